@@ -17,16 +17,22 @@ structure Inv (b : B) : Prop where
   fresh : ∀ r, b.nextRef ≤ r → b.getSess r = none
   /-- the store points to existing session objects carrying the identifier they are filed under -/
   store : ∀ p ∈ b.store, ∃ s, b.getSess p.2 = some s ∧ s.cid = p.1
+  /-- a set will flag comes with a will message (`stop` never meets the nil will it would recover from) -/
+  wills : ∀ r s, b.getSess r = some s → s.willFlag = true → s.will.isSome = true
 
 theorem inv_init : Inv {} :=
-  ⟨fun _ h => by simp at h, fun _ _ => rfl, fun _ h => by simp at h⟩
+  ⟨fun _ h => by simp at h, fun _ _ => rfl, fun _ h => by simp at h, fun _ _ h => by simp [B.getSess] at h⟩
+
+theorem initWill_isSome (req : Connect) : (initWill req).isSome = req.will.isSome := by
+  unfold initWill; cases req.will <;> rfl
 
 theorem Inv.transfer {b b' : B} (h : Inv b)
     (hs : ∀ r s, b.getSess r = some s → ∃ s', b'.getSess r = some s' ∧ s'.cid = s.cid)
     (hf : ∀ r, b'.nextRef ≤ r → b'.getSess r = none)
     (hc : ∀ cn ∈ b'.conns, (∃ cn0 ∈ b.conns, cn0.sess = cn.sess) ∨ ∃ s, b'.getSess cn.sess = some s)
-    (hst : ∀ p ∈ b'.store, p ∈ b.store ∨ ∃ s, b'.getSess p.2 = some s ∧ s.cid = p.1) : Inv b' := by
-  refine ⟨?_, hf, ?_⟩
+    (hst : ∀ p ∈ b'.store, p ∈ b.store ∨ ∃ s, b'.getSess p.2 = some s ∧ s.cid = p.1)
+    (hw : ∀ r s, b'.getSess r = some s → s.willFlag = true → s.will.isSome = true) : Inv b' := by
+  refine ⟨?_, hf, ?_, hw⟩
   · intro cn hcn
     rcases hc cn hcn with ⟨cn0, h0, he⟩ | h1
     · obtain ⟨s, hs0⟩ := h.conns cn0 h0
@@ -42,14 +48,16 @@ theorem Inv.transfer {b b' : B} (h : Inv b)
 
 theorem inv_frame {b b' : B} (hf : Frame b b') (h : Inv b) : Inv b' := by
   refine h.transfer (fun r s hs => ⟨s, (hf.getSess r).trans hs, rfl⟩) ?_ ?_ ?_
+    (fun r s hs => h.wills r s ((hf.getSess r).symm.trans hs))
   · intro r hr; rw [hf.getSess]; exact h.fresh r (hf.nextRef ▸ hr)
   · intro cn hcn; exact .inl ⟨cn, hf.conns ▸ hcn, rfl⟩
   · intro p hp; exact .inl (hf.store ▸ hp)
 
 /-- replacing a session object by one of the same reference and identifier -/
 theorem inv_setSess {b : B} (h : Inv b) {r : Nat} {s s' : Sess} (hs : b.getSess r = some s)
-    (hr : s'.ref = r) (hcid : s'.cid = s.cid) : Inv (b.setSess s') := by
-  refine h.transfer ?_ ?_ ?_ ?_
+    (hr : s'.ref = r) (hcid : s'.cid = s.cid) (hwl : s'.willFlag = true → s'.will.isSome = true) :
+    Inv (b.setSess s') := by
+  refine h.transfer ?_ ?_ ?_ ?_ ?_
   · intro r0 s0 h0
     by_cases he : r0 = s'.ref
     · subst he
@@ -63,9 +71,14 @@ theorem inv_setSess {b : B} (h : Inv b) {r : Nat} {s s' : Sess} (hs : b.getSess 
     · rw [getSess_setSess_ne b s' r0 he]; exact hnone
   · intro cn hcn; exact .inl ⟨cn, hcn, rfl⟩
   · intro p hp; exact .inl hp
+  · intro r0 t ht
+    by_cases he : r0 = s'.ref
+    · subst he
+      rw [getSess_setSess] at ht; cases ht; exact hwl
+    · rw [getSess_setSess_ne b s' r0 he] at ht; exact h.wills r0 t ht
 
 theorem inv_markDead {b : B} (h : Inv b) (c : Nat) : Inv (markDead b c) := by
-  refine h.transfer (fun r s hs => ⟨s, hs, rfl⟩) h.fresh ?_ (fun p hp => .inl hp)
+  refine h.transfer (fun r s hs => ⟨s, hs, rfl⟩) h.fresh ?_ (fun p hp => .inl hp) h.wills
   intro cn hcn
   simp only [markDead, List.mem_map] at hcn
   obtain ⟨x, hx, rfl⟩ := hcn
@@ -73,7 +86,7 @@ theorem inv_markDead {b : B} (h : Inv b) (c : Nat) : Inv (markDead b c) := by
   split <;> rfl
 
 theorem inv_storeDel {b : B} (h : Inv b) (cid : Bytes) : Inv (b.storeDel cid) := by
-  refine h.transfer (fun r s hs => ⟨s, hs, rfl⟩) h.fresh (fun cn hcn => .inl ⟨cn, hcn, rfl⟩) ?_
+  refine h.transfer (fun r s hs => ⟨s, hs, rfl⟩) h.fresh (fun cn hcn => .inl ⟨cn, hcn, rfl⟩) ?_ h.wills
   intro p hp
   simp only [B.storeDel, List.mem_filter] at hp
   exact .inl hp.1
@@ -98,7 +111,7 @@ theorem inv_stop {b : B} (h : Inv b) (c : Nat) : Inv (stop b c).1 := by
           have h2 : Inv (onPublish (stopBase b c s) w).1 := inv_frame hf hb
           have hs2 : (onPublish (stopBase b c s) w).1.getSess cn.sess = some s := (hf.getSess _).trans hsb
           have h3 := inv_setSess (s := s) (s' := { s with will := some (onPublish (stopBase b c s) w).2.1 })
-            h2 hs2 hr rfl
+            h2 hs2 hr rfl (fun _ => rfl)
           dsimp only
           split
           · exact inv_storeDel h3 _
@@ -154,9 +167,13 @@ theorem inv_accepted {b : B} (h : Inv b) (c : Nat) (req : Connect) : Inv (accept
   | some s =>
     obtain ⟨_, _, hs, _⟩ := resumed_some hres
     have h1 : Inv (b.setSess (updSess s req)) := inv_setSess h hs rfl rfl
+      (fun hf => by
+        have h1 : (updSess s req).willFlag = req.will.isSome := rfl
+        have h2 : (updSess s req).will = initWill req := rfl
+        rw [h2, initWill_isSome, ← h1]; exact hf)
     have hg : (b.setSess (updSess s req)).getSess s.ref = some (updSess s req) := getSess_setSess b (updSess s req)
     dsimp only
-    refine inv_frame (frame_topics _ _) (h1.transfer (fun r s hs => ⟨s, hs, rfl⟩) h1.fresh ?_ (fun p hp => .inl hp))
+    refine inv_frame (frame_topics _ _) (h1.transfer (fun r s hs => ⟨s, hs, rfl⟩) h1.fresh ?_ (fun p hp => .inl hp) h1.wills)
     intro cn hcn
     simp only [addConn, List.mem_append, List.mem_filter, List.mem_singleton] at hcn
     rcases hcn with ⟨h0, _⟩ | rfl
@@ -169,7 +186,7 @@ theorem inv_accepted {b : B} (h : Inv b) (c : Nat) (req : Connect) : Inv (accept
       fun r hr => getSess_setSess_ne { b with nextRef := b.nextRef + 1 } (newSess b c req) r hr
     have hg' : (B.setSess { b with nextRef := b.nextRef + 1 } (newSess b c req)).getSess b.nextRef = some (newSess b c req) :=
       getSess_setSess { b with nextRef := b.nextRef + 1 } (newSess b c req)
-    refine h.transfer ?_ ?_ ?_ ?_
+    refine h.transfer ?_ ?_ ?_ ?_ ?_
     · intro r s hs
       have hr : r ≠ b.nextRef := fun he => by rw [he, hn] at hs; cases hs
       exact ⟨s, (hg r hr).trans hs, rfl⟩
@@ -188,6 +205,16 @@ theorem inv_accepted {b : B} (h : Inv b) (c : Nat) (req : Connect) : Inv (accept
       rcases hp' with rfl | ⟨h0, _⟩
       · exact .inr ⟨_, hg', rfl⟩
       · exact .inl h0
+    · intro r t ht
+      have ht' : (B.setSess { b with nextRef := b.nextRef + 1 } (newSess b c req)).getSess r = some t := ht
+      by_cases he : r = b.nextRef
+      · subst he
+        rw [hg'] at ht'; cases ht'
+        intro hf
+        have h1 : (newSess b c req).willFlag = req.will.isSome := rfl
+        have h2 : (newSess b c req).will = initWill req := rfl
+        rw [h2, initWill_isSome, ← h1]; exact hf
+      · rw [hg r he] at ht'; exact h.wills r t ht'
 
 theorem inv_first {b : B} (h : Inv b) (c : Nat) (f : First) (a : Bool) : Inv (first b c f a).1 := by
   cases hacc : accepts f a with
@@ -213,21 +240,23 @@ theorem inv_packet {b : B} (h : Inv b) (c : Nat) (p : Packet) : Inv (packet b c 
         unfold packet
         simp only [hc, ha, hs, Bool.not_true, Bool.false_eq_true, ↓reduceIte]
         split
-        · exact inv_setSess h hs hr rfl
+        · exact inv_setSess h hs hr rfl (h.wills _ s hs)
         · split
           · exact inv_frame (onPublish_frame _ _) h
           · exact inv_frame (onPublish_frame _ _) h
       | pubrel id =>
         unfold packet
         simp only [hc, ha, hs, Bool.not_true, Bool.false_eq_true, ↓reduceIte]
-        exact inv_frame (releaseAll_frame _ _) (inv_setSess h hs hr rfl)
+        exact inv_frame (releaseAll_frame _ _) (inv_setSess h hs hr rfl (h.wills _ s hs))
       | subscribe id topics =>
         unfold packet
         simp only [hc, ha, hs, Bool.not_true, Bool.false_eq_true, ↓reduceIte]
         have hl := subscribeLoop_frame c topics b s [] []
         have h1 : Inv (subscribeLoop b c s topics [] []).1 := inv_frame hl.1 h
         have hs1 : (subscribeLoop b c s topics [] []).1.getSess cn.sess = some s := (hl.1.getSess _).trans hs
-        exact inv_frame (sendRetained_frame _ _ _) (inv_setSess h1 hs1 (hl.2.1.trans hr) hl.2.2.1)
+        refine inv_frame (sendRetained_frame _ _ _) (inv_setSess h1 hs1 (hl.2.1.trans hr) hl.2.2.1 ?_)
+        rw [hl.2.2.2.2.1, hl.2.2.2.2.2]
+        exact h.wills _ s hs
       | unsubscribe id topics =>
         unfold packet
         simp only [hc, ha, hs, Bool.not_true, Bool.false_eq_true, ↓reduceIte]
@@ -235,10 +264,11 @@ theorem inv_packet {b : B} (h : Inv b) (c : Nat) (p : Packet) : Inv (packet b c 
           inv_frame (frame_topics _ _) h
         have hs1 : B.getSess { b with topics := topics.foldl (fun ts t => (ts.unsubscribe t (some c)).1) b.topics }
             cn.sess = some s := hs
-        exact inv_setSess (s := s) h1 hs1 hr rfl
+        exact inv_setSess (s := s) h1 hs1 hr rfl (h.wills _ s hs)
       | disconnect =>
         rw [packet_disconnect_eq b c cn s hc ha hs]
-        exact inv_stop (inv_setSess (s := s) (s' := { s with willFlag := false }) h hs hr rfl) c
+        exact inv_stop (inv_setSess (s := s) (s' := { s with willFlag := false }) h hs hr rfl
+          (fun hf => by cases hf)) c
       | connack sp code => unfold packet; simp only [hc, ha, hs]; exact h
       | puback id => unfold packet; simp only [hc, ha, hs]; exact h
       | pubrec id => unfold packet; simp only [hc, ha, hs]; exact h
